@@ -81,6 +81,7 @@ pub fn in_range_world(g: &Generated, ti: usize, rng: &mut Rng, cfg: &Cfg, tries:
                 let crate::gen::sem::Undef::Undefined(why) = e;
                 ctx.count(&format!("world/undefined/{}", err_sig(&why)));
             }
+            Ok(exp) if exp.ambiguous.is_some() => ctx.count("world/ambiguous-denotation"),
             Ok(exp) => {
                 let oor = out_of_range(&exp);
                 if oor.is_empty() {
